@@ -172,3 +172,88 @@ def replay_dict_index_framing(n):
         return False, "round trip intact"
     finally:
         shutil.rmtree(d, ignore_errors=True)
+
+
+def delta_callsites():
+    """every call of the delta decoder in core.py must request 64-bit output exactly when the column's physical type
+    is INT64 (otherwise 8-byte slots are filled with 4-byte values).  For each call site the `longval` argument
+    expression is lifted from the AST (absent = False) and z3 decides  longval(type) <=> type == INT64  over the
+    physical types the decoder is reachable with (INT32, INT64)."""
+    import ast
+    import fastparquet.core as core
+    from fastparquet import parquet_thrift
+    res = _res("lemma.delta_callsites[core.py]", ["core.read_data_page", "core.read_data_page_v2"], {})
+    INT64 = parquet_thrift.Type.INT64
+    sites = []
+    for fn in (core.read_data_page, core.read_data_page_v2):
+        tree = astz3.func_ast(fn)
+        for call in astz3.find_calls(tree, "delta_binary_unpack"):
+            sites.append((fn.__name__, call))
+    if not sites:
+        res["status"] = "error"
+        res["error"] = "no delta_binary_unpack call site found in core.py"
+        return res
+    t = z3.Int("physical_type")
+    for fname, call in sites:
+        expr = astz3.kw(call, "longval")
+        if expr is None and len(call.args) >= 3:
+            expr = call.args[2]
+        env = {"metadata.type": t, "cmd.type": t, "se.type": t, "parquet_thrift.Type.INT64": z3.IntVal(INT64)}
+        try:
+            lv = z3.BoolVal(False) if expr is None else _tr_bool(expr, env)
+        except astz3.Untranslatable as ex:
+            res["status"] = "error"
+            res["error"] = "cannot lift longval at %s line %d: %s" % (fname, call.lineno, ex)
+            return res
+        s = z3.Solver()
+        s.add(z3.Or(t == 1, t == 2))
+        if _check(res, s) != "sat":
+            res["status"] = "inconclusive"
+            return res
+        r = _check(res, s, lv != (t == INT64))
+        if r == "sat":
+            ty = s.model().eval(t, model_completion=True).as_long()
+            res["status"] = "violation"
+            res["findings"].append(dict(
+                kind="contract", function=fname, obligation="longval <=> physical type INT64",
+                detail="%s (call at line %d of the function) decodes DELTA_BINARY_PACKED of physical type %s with "
+                       "longval=%s" % (fname, call.lineno, "INT64" if ty == 2 else "INT32",
+                                       "absent" if expr is None else ast.unparse(expr)),
+                shape=dict(harness="lemma.delta_callsites", site=fname, line=call.lineno, ptype=ty),
+                cls="lemma:delta_callsites",
+                witness=dict(driver="py:vf.pyshim.lemmas:replay_delta_callsite",
+                             args=dict(site=fname, ptype=ty))))
+            return res
+    res["reached"] = len(sites)
+    return res
+
+
+def _tr_bool(node, env):
+    import ast
+    if isinstance(node, ast.Compare) and len(node.ops) == 1 and isinstance(node.ops[0], ast.Eq):
+        return _tr_int(node.left, env) == _tr_int(node.comparators[0], env)
+    if isinstance(node, ast.Constant) and isinstance(node.value, (bool, int)):
+        return z3.BoolVal(bool(node.value))
+    raise astz3.Untranslatable(ast.unparse(node))
+
+
+def _tr_int(node, env):
+    import ast
+    key = ast.unparse(node)
+    if key in env:
+        return env[key]
+    if isinstance(node, ast.Constant) and isinstance(node.value, int):
+        return z3.IntVal(node.value)
+    raise astz3.Untranslatable(key)
+
+
+def replay_delta_callsite(site, ptype):
+    from vf.pyshim import flat_file
+    # small deltas (miniblock widths < 29: outside known findings N5/N6), 64-bit magnitudes for INT64
+    base = 10 ** 12 if ptype == 2 else 0
+    vals = [base + x for x in (5, 8, 8, 20, 1, 100, 7, -3)]
+    ok, info = flat_file.roundtrip(vals, 64 if ptype == 2 else 32, 2 if site.endswith("v2") else 1, True)
+    if not ok:
+        return True, "DELTA_BINARY_PACKED %s column in a data page %s: %s" % (
+            "INT64" if ptype == 2 else "INT32", "v2" if site.endswith("v2") else "v1", info)
+    return False, "decodes correctly"
